@@ -63,7 +63,9 @@ def race(text, timeout_s, confirm=False, tmpdir=None):
                 c = cmd[:-1] + ['--tlimit=%d' % int(timeout_s * 1000), p] if cmd[-1] == '--fmf-fun' else cmd + ['--tlimit=%d' % int(timeout_s * 1000), p]
                 c = [x for x in CVC5_PLAIN[1]] + ['--tlimit=%d' % int(timeout_s * 1000), p]
             else:
-                c = cmd + ['-T:%d' % max(1, int(timeout_s)), p]
+                # model_validate: z3 5.1 sometimes answers `sat` with a model that does not satisfy
+                # the assertions (seen on string VCs); with validation that becomes an error = unknown
+                c = cmd + ['-T:%d' % max(1, int(timeout_s)), 'model_validate=true', p]
             procs.append((name, subprocess.Popen(c, stdout=subprocess.PIPE, stderr=subprocess.PIPE, text=True)))
         answers = {}
         pending = dict(procs)
@@ -75,10 +77,19 @@ def race(text, timeout_s, confirm=False, tmpdir=None):
                     continue
                 out = p.stdout.read().strip()
                 first = out.split('\n')[0].strip() if out else ''
+                if 'invalid model' in out:
+                    first = 'unknown'     # z3 produced a model that fails its own validation
                 answers[name] = (first if first in ('sat', 'unsat') else 'unknown', time.time() - t0, out[:300])
                 del pending[name]
             definitive = [(n, a) for n, a in answers.items() if a[0] in ('sat', 'unsat')]
-            if definitive and (not confirm or len(definitive) >= 2 or not pending):
+            has_unsat = any(a[0] == 'unsat' for _, a in definitive)
+            # an `unsat` ends the race (thorough: two of them); a `sat` waits for a second opinion
+            # for a few seconds, so that a wrong `sat` of one solver shows up as a disagreement
+            if definitive and not pending:
+                break
+            if has_unsat and (not confirm or len(definitive) >= 2):
+                break
+            if definitive and not has_unsat and time.time() - t0 > min(timeout_s, definitive[0][1][1] + 5):
                 break
             time.sleep(0.01)
         for name, p in pending.items():
@@ -118,6 +129,9 @@ def discharge_all(obligations, timeout_s=20, confirm=False, workers=None):
     with ThreadPoolExecutor(workers) as pool:
         results = list(pool.map(lambda t: race(t, timeout_s, confirm), texts))
     for ob, r, t in zip(obligations, results, texts):
+        if r['verdict'] == 'sat' and os.environ.get('PYVC_KEEP_SAT'):
+            with open(os.path.join(os.environ['PYVC_KEEP_SAT'], ob.name.replace('/', '_').replace(':', '_') + '.smt2'), 'w') as f:
+                f.write(t)
         r['name'] = ob.name
         r['kind'] = ob.kind
         r['smt2_bytes'] = len(t)
